@@ -1,267 +1,447 @@
 """C18 - rollout inverts flattening (structural clauses only; the round trip itself is not decided).
 
-SEP-THREAD, OPTIONAL-REATTACH, GROUP-GUARD, RECURSE/LEAF/ELLIPSIS pass-through, decided by def-use analysis
-of the one function.
+rollout() is evaluated abstractly on a symbolic flat mapping with one (and, for GROUP-GUARD, two) symbolic entries
+K: V.  Every path yields a path condition and an abstract result table; the rules read the table:
+
+  ELLIPSIS-PASS      K is `...`            ->  {K: V}
+  LEAF-VALUE / OPTIONAL-REATTACH
+                     K has no separator   ->  {HEAD(K) | optional(HEAD(K)): V}
+                     K has a separator    ->  {HEAD(K): rollout({TAIL(K) | optional(TAIL(K)): V}, separator=separator)}
+  RECURSE            the group is handed to rollout again (or the path excludes a further separator in the tail)
+  SEP-THREAD         HEAD / TAIL / the leaf-or-group decision are computed from K with the `separator` parameter in
+                     one of the recognised idioms (split + join, split(sep, 1), partition, find + slices); joins and
+                     recursive calls carry the same parameter
+  GROUP-GUARD        two entries with the same head end up in ONE group holding both tails
+
+Any spelling of the control flow, helpers, comprehensions or setdefault produces the same tables.
 """
 from __future__ import annotations
 
-import ast
 from typing import Any, Dict, List, Optional, Set, Tuple
 
-from ..flow import parents
+from ..engine import Interp
+from ..interp import Event, Path
 from ..loader import AnalysisError, FuncInfo, Program
 from ..model import Model
 from ..report import Run
+from ..values import Const, DictV, Inst, ListV, StrV, Sym, Term, TupleV, V, is_ell
+
+SEP = "separator"
 
 
-def names(n: ast.AST) -> Set[str]:
-    return {x.id for x in ast.walk(n) if isinstance(x, ast.Name)}
+def _paths(prog: Program, model: Model, f: FuncInfo, unroll: int, split_on_store: bool = False) -> List[Path]:
+    it = Interp(prog, model, unroll=unroll, max_depth=10)
+    it.split_on_store = split_on_store      # type: ignore[attr-defined]
+
+    def run1(i: Interp) -> V:
+        return i.call_function(f, [Sym("keys", "dict", ("param", "keys"))],
+                               {SEP: Sym(SEP, "str", ("param", SEP))})
+    return it.run_paths(run1, max_paths=4000)
+
+
+class Idioms:
+    """Recognised ways of cutting `comp` at the first separator (keys of the abstract terms)."""
+
+    def __init__(self, comp: str) -> None:
+        self.comp = comp
+        sp, sp1 = f"mcall({comp}, split, {SEP})", f"mcall({comp}, split, {SEP}, 1)"
+        rsp = f"mcall({comp}, rsplit, {SEP})"
+        pa = f"mcall({comp}, partition, {SEP})"
+        self.pos = [f"mcall({comp}, find, {SEP})", f"mcall({comp}, index, {SEP})"]
+        self.split_terms = [sp, sp1, rsp]
+        self.partition = pa
+        self.head: Set[str] = set()
+        self.tail: Set[str] = set()
+        self.tail_wrong: Dict[str, str] = {}
+        for P in (sp, sp1, rsp, pa):
+            self.head |= {f"getitem({P}, 0)", f"unpack({P}, 0)"}
+        for P in (sp, rsp):
+            self.tail.add(f"mcall({SEP}, join, slice({P}, 1, None, None))")
+        self.tail |= {f"getitem({sp1}, 1)", f"unpack({sp1}, 1)", f"getitem({pa}, 2)", f"unpack({pa}, 2)"}
+        for pos in self.pos:
+            self.head |= {f"slice({comp}, None, {pos}, None)", f"slice({comp}, 0, {pos}, None)"}
+            self.tail |= {f"slice({comp}, bin(+, {pos}, len({SEP})), None, None)",
+                          f"slice({comp}, bin(+, len({SEP}), {pos}), None, None)"}
+            self.tail_wrong[f"slice({comp}, bin(+, {pos}, 1), None, None)"] = \
+                "the tail is cut at find() + 1: wrong for a separator longer than one character"
+            self.tail_wrong[f"slice({comp}, bin(+, 1, {pos}), None, None)"] = self.tail_wrong[f"slice({comp}, bin(+, {pos}, 1), None, None)"]
+        self.found = {f"getitem({pa}, 1)", f"unpack({pa}, 1)"}
+
+    def decision(self, t: Any, b: bool) -> Optional[str]:
+        """Meaning of a decided condition for the leaf-or-group choice: 'leaf', 'group', 'bad:<why>' or None."""
+        k = t.key() if isinstance(t, V) else ""
+        # number of parts n = len(split)
+        for P in self.split_terms:
+            lk = f"len({P})"
+            if lk in k and isinstance(t, Term) and t.op in ("lt", "eq"):
+                outs = set()
+                for n in (1, 2, 3):
+                    r = _eval_int(t, lk, n)
+                    if r is None:
+                        return None
+                    if r == b:
+                        outs.add(n)
+                if outs == {1}:
+                    return "leaf"
+                if outs == {2, 3}:
+                    return "group"
+                return "bad:the number of parts is tested against the wrong bound"
+            if k == f"slice({P}, 1, None, None)":
+                return "group" if b else "leaf"             # truthiness of parts[1:]
+        if k in self.found:
+            return "group" if b else "leaf"
+        for fk in self.found:
+            if isinstance(t, Term) and t.op == "eq" and {a.key() for a in t.args if isinstance(a, V)} == {fk, "''"}:
+                return "leaf" if b else "group"
+        if k in self.tail and isinstance(t, V):
+            return "bad:the leaf-or-group decision is made on the tail, which is also empty for a key that ENDS with the separator"
+        for pos in self.pos:
+            if pos in k and isinstance(t, Term) and t.op in ("lt", "eq"):
+                outs = set()
+                for n in (-1, 0, 1, 2):
+                    r = _eval_int(t, pos, n)
+                    if r is None:
+                        return None
+                    if r == b:
+                        outs.add(n)
+                if outs == {-1}:
+                    return "leaf"
+                if outs == {0, 1, 2}:
+                    return "group"
+                return "bad:the find() position is tested against the wrong bound"
+        if isinstance(t, Term) and t.op == "in" and len(t.args) == 2 and t.args[0].key() == SEP and t.args[1].key() == self.comp:
+            return "group" if b else "leaf"
+        return None
+
+
+def _eval_int(t: Any, var: str, n: int) -> Optional[bool]:
+    def val(x: Any) -> Optional[int]:
+        if isinstance(x, Const) and isinstance(x.value, int) and not isinstance(x.value, bool):
+            return x.value
+        if isinstance(x, V) and x.key() == var:
+            return n
+        if isinstance(x, Term) and x.op == "bin" and x.args[0] in ("+", "-"):
+            a, b = val(x.args[1]), val(x.args[2])
+            if a is None or b is None:
+                return None
+            return a + b if x.args[0] == "+" else a - b
+        return None
+    if isinstance(t, Term) and t.op in ("lt", "eq") and len(t.args) == 2:
+        a, b = val(t.args[0]), val(t.args[1])
+        if a is None or b is None:
+            return None
+        return a < b if t.op == "lt" else a == b
+    return None
+
+
+def _walk(v: Any, seen: Optional[Set[int]] = None) -> Any:
+    if seen is None:
+        seen = set()
+    if not isinstance(v, V) or id(v) in seen:
+        return
+    seen.add(id(v))
+    yield v
+    if isinstance(v, Term):
+        for a in v.args:
+            yield from _walk(a, seen)
+    elif isinstance(v, (ListV, TupleV)):
+        for a in v.items:
+            yield from _walk(getattr(a, "value", a), seen)
+    elif isinstance(v, DictV):
+        for it in v.items:
+            if isinstance(it, tuple):
+                yield from _walk(it[0], seen)
+                yield from _walk(it[1], seen)
+    elif isinstance(v, Inst):
+        for a in v.attrs.values():
+            yield from _walk(a, seen)
+    elif isinstance(v, StrV):
+        for pc in v.pieces:
+            if not isinstance(pc, str):
+                yield from _walk(pc[0], seen)
+
+
+def _opt_payload(k: V) -> Optional[V]:
+    """optional(X) instance -> X"""
+    if isinstance(k, Inst) and k.cls is not None and k.cls.name == "optional":
+        for a in ("key", "_key"):
+            if a in k.attrs:
+                return k.attrs[a]
+        vals = list(k.attrs.values())
+        return vals[0] if len(vals) == 1 else None
+    return None
+
+
+def _group_of(v: V) -> Tuple[Optional[DictV], Optional[Event], bool]:
+    """value stored for a head -> (group table, was it handed to rollout?)"""
+    if isinstance(v, DictV):
+        return v, None, False
+    if isinstance(v, Term) and v.op == "call" and v.args and str(v.args[0]).endswith("rollout") and len(v.args) >= 2 \
+            and isinstance(v.args[1], DictV):
+        return v.args[1], None, True
+    return None, None, False
 
 
 def check(run: Run, prog: Program, model: Model, tier: str) -> None:
     run.explanation = (
-        "Def-use analysis of d42.utils.rollout: the keyword-only separator must reach every recursive call, split "
-        "and join unchanged and no string literal may stand in for it; the optional flag must reach both store "
-        "sites; the per-head group must be created under a membership guard (so grouping does not depend on the "
-        "order of the flat keys); dict-valued groups must be recursed into, leaf values stored as received, the "
-        "`...: ...` entry passed through. These are necessary conditions; the round trip on concrete mappings is "
-        "not decided.")
-    run.rule_text = ("one obligation per recursive call / split / join / store site / group creation; non-trivial = "
-                     "needed alias resolution of the flag or of the stored key expression")
+        "d42.utils.rollout is evaluated abstractly on a symbolic flat mapping with one symbolic entry K: V (and with "
+        "two entries for the grouping rule); str methods, optional() and the recursive call are uninterpreted terms. "
+        "Each returning path gives an abstract result table, which is compared with the specification of one rollout "
+        "step: `...` passes through; a key without separator is stored under its head (wrapped in optional iff K was), "
+        "value untouched; a key with a separator is stored as {head: rollout({tail: V}, separator=separator)} with the "
+        "optional marker on the tail; head, tail and the leaf-or-group decision must be computed from K and the "
+        "separator parameter in a recognised idiom; two entries whose heads coincide land in one group. These are "
+        "necessary conditions of the round-trip property; the round trip on concrete mappings is not decided.")
+    run.rule_text = ("one obligation per clause and key form (plain / optional / `...`), read off the abstract result tables; "
+                     "non-trivial = needed the evaluation of both loops of rollout and of the recursive call's arguments")
     f = prog.func("d42.utils._rollout.rollout")
-    fn = f.node
-    par = parents(fn)
-    kwonly = [a.arg for a in fn.args.kwonlyargs]
-    pos = [a.arg for a in fn.args.args]
-    sep = "separator" if "separator" in kwonly + pos else None
-    if sep is None:
-        raise AnalysisError("rollout has no `separator` parameter")
     site = f.loc
-    # parameter must not be re-assigned
-    for n in ast.walk(fn):
-        if isinstance(n, (ast.Assign, ast.AugAssign)) and sep in names(n.targets[0] if isinstance(n, ast.Assign) else n.target) \
-                and any(isinstance(t, ast.Name) and t.id == sep for t in (n.targets if isinstance(n, ast.Assign) else [n.target])):
-            run.violated("SEP-THREAD", "rollout: separator re-assigned", f"{f.module.path}:{n.lineno}",
-                         "the separator parameter is overwritten", witness="rollout({'a/b': 1}, separator='/')")
-    # ---------------------------------------------------------------- SEP-THREAD
-    n_rec = n_split = n_join = 0
-    for n in ast.walk(fn):
-        if not isinstance(n, ast.Call):
-            continue
-        fu = n.func
-        loc = f"{f.module.path}:{n.lineno}"
-        if isinstance(fu, ast.Name) and fu.id == fn.name:
-            n_rec += 1
-            kw = {k.arg: k.value for k in n.keywords}
-            v = kw.get(sep)
-            if v is None and sep in pos and len(n.args) > pos.index(sep):
-                v = n.args[pos.index(sep)]
-            c = f"rollout: recursive call #{n_rec}"
-            if isinstance(v, ast.Name) and v.id == sep:
-                run.holds("SEP-THREAD", c, loc, f"{sep}={sep}", nontrivial=False)
-            elif v is None:
-                run.violated("SEP-THREAD", c, loc, "recursive call falls back to the default separator",
-                             witness="rollout({'a/b/c': 1}, separator='/') splits the tail on '.' at depth 2")
-            else:
-                run.violated("SEP-THREAD", c, loc, f"recursive call passes {ast.unparse(v)} instead of the separator",
-                             witness="rollout({'a/b/c': 1}, separator='/')")
-        elif isinstance(fu, ast.Attribute) and fu.attr in ("split", "rsplit", "partition"):
-            n_split += 1
-            c = f"rollout: {fu.attr} #{n_split}"
-            a0 = n.args[0] if n.args else None
-            if isinstance(a0, ast.Name) and a0.id == sep:
-                run.holds("SEP-THREAD", c, loc, f".{fu.attr}({sep})", nontrivial=False)
-            else:
-                run.violated("SEP-THREAD", c, loc,
-                             f".{fu.attr}({ast.unparse(a0) if a0 is not None else ''}) does not split on the separator parameter",
-                             witness="rollout({'a/b': 1}, separator='/') is not split")
-            # maxsplit would keep tails intact but change grouping for multi-level keys -> fine either way
-        elif isinstance(fu, ast.Attribute) and fu.attr == "join":
-            n_join += 1
-            c = f"rollout: join #{n_join}"
-            r = fu.value
-            if isinstance(r, ast.Name) and r.id == sep:
-                run.holds("SEP-THREAD", c, loc, f"{sep}.join(...)", nontrivial=False)
-            else:
-                run.violated("SEP-THREAD", c, loc, f"{ast.unparse(r)}.join(...) re-joins the tail with something else than the separator",
-                             witness="rollout({'a/b/c': 1}, separator='/') yields key 'b.c' at depth 2")
-    # partition()-based splitting: "separator found" must be decided on the MIDDLE element; an empty tail is legal
-    for n in ast.walk(fn):
-        if isinstance(n, ast.Assign) and isinstance(n.value, ast.Call) and isinstance(n.value.func, ast.Attribute) \
-                and n.value.func.attr in ("partition", "rpartition") and isinstance(n.targets[0], ast.Tuple) and len(n.targets[0].elts) == 3:
-            a0 = n.value.args[0] if n.value.args else None
-            n_split += 1
-            loc = f"{f.module.path}:{n.lineno}"
-            c = f"rollout: {n.value.func.attr} #{n_split}"
-            if not (isinstance(a0, ast.Name) and a0.id == sep):
-                run.violated("SEP-THREAD", c, loc, "partitions on something else than the separator parameter", witness="rollout({'a/b': 1}, separator='/')")
-                continue
-            run.holds("SEP-THREAD", c, loc, f".{n.value.func.attr}({sep})", nontrivial=False)
-            head_, mid_, tail_ = [e.id if isinstance(e, ast.Name) else None for e in n.targets[0].elts]
-            for t in ast.walk(fn):
-                if isinstance(t, ast.If) and (names(t.test) & {x for x in (head_, mid_, tail_) if x}) and t.lineno > n.lineno:
-                    used = names(t.test)
-                    c2 = f"rollout: leaf-or-group decision after {n.value.func.attr}"
-                    if tail_ in used and mid_ not in used:
-                        run.violated("SEP-THREAD", c2, f"{f.module.path}:{t.lineno}",
-                                     "`no separator found` is decided on the (possibly empty) tail instead of the separator element",
-                                     witness="rollout({'a.': 1}) yields {'a': 1} instead of {'a': {'': 1}}")
-                    elif mid_ in used:
-                        run.holds("SEP-THREAD", c2, f"{f.module.path}:{t.lineno}", "decided on the separator element", nontrivial=True)
-                    break
-    # find()/index() based splitting: the tail must start len(separator) after the hit
-    pos_names: Set[str] = set()
-    for n in ast.walk(fn):
-        if isinstance(n, ast.Assign) and isinstance(n.value, ast.Call) and isinstance(n.value.func, ast.Attribute) \
-                and n.value.func.attr in ("find", "index", "rfind", "rindex") and len(n.targets) == 1 and isinstance(n.targets[0], ast.Name):
-            a0 = n.value.args[0] if n.value.args else None
-            n_split += 1
-            c = f"rollout: {n.value.func.attr} #{n_split}"
-            loc = f"{f.module.path}:{n.lineno}"
-            if isinstance(a0, ast.Name) and a0.id == sep:
-                pos_names.add(n.targets[0].id)
-                run.holds("SEP-THREAD", c, loc, f".{n.value.func.attr}({sep})", nontrivial=False)
-            else:
-                run.violated("SEP-THREAD", c, loc, f"searches for {ast.unparse(a0) if a0 is not None else 'nothing'} instead of the separator parameter",
-                             witness="rollout({'a/b': 1}, separator='/') is not split")
-    n_tail = 0
-    for n in ast.walk(fn):
-        if isinstance(n, ast.Subscript) and isinstance(n.slice, ast.Slice) and n.slice.lower is not None and names(n.slice.lower) & pos_names:
-            lo = n.slice.lower
-            n_tail += 1
-            c = f"rollout: tail slice #{n_tail}"
-            loc = f"{f.module.path}:{n.lineno}"
-            ok_len = isinstance(lo, ast.BinOp) and isinstance(lo.op, ast.Add) and any(
-                isinstance(x, ast.Call) and isinstance(x.func, ast.Name) and x.func.id == "len" and x.args
-                and isinstance(x.args[0], ast.Name) and x.args[0].id == sep for x in (lo.left, lo.right))
-            const = isinstance(lo, ast.BinOp) and any(isinstance(x, ast.Constant) for x in (lo.left, lo.right))
-            if ok_len:
-                run.holds("SEP-THREAD", c, loc, f"tail starts at hit + len({sep})", nontrivial=True)
-            elif const or isinstance(lo, ast.Name):
-                run.violated("SEP-THREAD", c, loc,
-                             f"tail starts at `{ast.unparse(lo)}`: correct only for a one-character separator",
-                             witness="rollout({'a__b': 1}, separator='__') yields {'a': {'_b': 1}}")
-            else:
-                run.undecided("SEP-THREAD", c, loc, f"tail offset `{ast.unparse(lo)}` not recognised")
-    run.floor("SEP-THREAD", 2)
+    params = [a.arg for a in f.node.args.kwonlyargs + f.node.args.args]
+    if SEP not in params:
+        raise AnalysisError("rollout has no `separator` parameter")
+    paths = _paths(prog, model, f, 1)
+    run.analysed["paths_one_entry"] = len(paths)
+    K, Vv = "key0@keys", "val0@keys"
+    verdicts: Dict[Tuple[str, str], List[Tuple[str, str]]] = {}
 
-    # ---------------------------------------------------------------- stores
-    loop = None
-    for n in fn.body:
-        if isinstance(n, ast.For) and isinstance(n.iter, ast.Call) and isinstance(n.iter.func, ast.Attribute) and n.iter.func.attr == "items":
-            loop = n
-            break
-    if loop is None:
-        run.undecided("OPTIONAL-REATTACH", "rollout: main loop", site, "main loop over keys.items() not recognised")
-        return
-    tnames = [t.id for t in loop.target.elts] if isinstance(loop.target, ast.Tuple) else []  # type: ignore
-    valname = tnames[1] if len(tnames) == 2 else None
-    # flag variable: assigned True under isinstance(<key>, optional)
-    flag = None
-    for n in ast.walk(loop):
-        if isinstance(n, ast.If) and any(isinstance(c, ast.Call) and isinstance(c.func, ast.Name) and c.func.id == "isinstance"
-                                         and any(isinstance(x, ast.Name) and x.id == "optional" for x in ast.walk(c)) for c in ast.walk(n.test)):
-            for s in n.body:
-                if isinstance(s, ast.Assign) and isinstance(s.value, ast.Constant) and s.value.value is True and isinstance(s.targets[0], ast.Name):
-                    flag = s.targets[0].id
-    if flag is None:
-        run.undecided("OPTIONAL-REATTACH", "rollout: optional flag", site, "flag variable not recognised")
-        return
-    stores = []
-    for n in ast.walk(loop):
-        if isinstance(n, ast.Assign) and isinstance(n.targets[0], ast.Subscript) and isinstance(n.value, ast.Name) and n.value.id == valname:
-            # skip the ellipsis pass-through (under is_ellipsis(key))
-            up = par.get(n)
-            under_ell = False
-            while up is not None and up is not loop:
-                if isinstance(up, ast.If) and "is_ellipsis" in names(up.test) and n in ast.walk(ast.Module(body=up.body, type_ignores=[])):
-                    under_ell = True
-                up = par.get(up)
-            if not under_ell:
-                stores.append(n)
-    kinds = []
-    for i, s in enumerate(stores):
-        key = s.targets[0].slice  # type: ignore
-        c = f"rollout: store site #{i + 1} ({'leaf' if isinstance(s.targets[0].value, ast.Name) else 'tail'})"  # type: ignore
-        loc = f"{f.module.path}:{s.lineno}"
-        ok = isinstance(key, ast.IfExp) and flag in names(key.test) and \
-            any(isinstance(x, ast.Call) and isinstance(x.func, ast.Name) and x.func.id == "optional" for x in ast.walk(key.body)) and \
-            not any(isinstance(x, ast.Call) and isinstance(x.func, ast.Name) and x.func.id == "optional" for x in ast.walk(key.orelse))
-        if ok:
-            run.holds("OPTIONAL-REATTACH", c, loc, f"key is optional(<k>) iff {flag}", nontrivial=True)
-        elif flag not in names(key):
-            run.violated("OPTIONAL-REATTACH", c, loc, f"the optional flag `{flag}` does not reach this store: the marker is lost",
-                         witness="rollout({optional('a.b'): 1}) yields {'a': {'b': 1}} (or loses optional on leaves)")
+    def rec(rule: str, construct: str, status: str, detail: str = "") -> None:
+        verdicts.setdefault((rule, construct), []).append((status, detail))
+
+    # ---------------------------------------------------------------- SEP-THREAD (joins, recursive calls, cuts)
+    for p in paths:
+        for e in p.events:
+            if e.kind == "join" and e.func.endswith("rollout"):
+                sp = e.data.get("sep")
+                it = e.data.get("iterable")
+                if it is not None and K in it.key():
+                    if isinstance(sp, V) and sp.key() == SEP:
+                        rec("SEP-THREAD", "rollout: join of the tail", "holds")
+                    else:
+                        rec("SEP-THREAD", "rollout: join of the tail", "violated",
+                            f"the tail is joined with {sp.key() if isinstance(sp, V) else sp} instead of the separator parameter")
+            if e.kind == "call" and isinstance(e.data.get("callee"), str) and e.data["callee"].endswith("._rollout.rollout") \
+                    and e.data.get("recursive"):
+                kw = e.data.get("kwargs") or {}
+                a = e.data.get("args") or []
+                given = kw.get(SEP) if SEP in kw else (a[1] if len(a) > 1 else None)
+                if isinstance(given, V) and given.key() == SEP:
+                    rec("SEP-THREAD", "rollout: recursive call", "holds")
+                else:
+                    rec("SEP-THREAD", "rollout: recursive call", "violated",
+                        "the recursive call does not pass the separator on: nested levels are split on the default '.'")
+        for _, t, _b in p.facts:
+            for x in _walk(t):
+                _cut_term(x, rec)
+        if p.value is not None:
+            for x in _walk(p.value):
+                _cut_term(x, rec)
+
+    # ---------------------------------------------------------------- one-entry tables
+    for p in paths:
+        if p.outcome != "return" or not isinstance(p.value, DictV):
+            continue
+        facts = {k: b for k, _, b in p.facts}
+        if not any(K in k for k in facts):
+            continue                        # no entry iterated
+        if facts.get(f"isinstance({K}, ellipsis)") is True:
+            tbl = p.value.pairs()
+            if len(tbl) == 1 and tbl[0][0].key() == K and tbl[0][1].key() == Vv:
+                rec("ELLIPSIS-PASS", "rollout: `...` entry", "holds")
+            else:
+                rec("ELLIPSIS-PASS", "rollout: `...` entry", "violated",
+                    f"a `...: ...` entry yields {p.value.key()[:60]} instead of being passed through")
+            continue
+        is_opt = facts.get(f"isinstance({K}, optional)")
+        if is_opt is None:
+            continue
+        comp = f"attr({K}, key)" if is_opt else K
+        form = "optional key" if is_opt else "plain key"
+        idi = Idioms(comp)
+        meanings = [idi.decision(t, b) for _, t, b in p.facts]
+        bad = [m for m in meanings if m and m.startswith("bad:")]
+        dec = [m for m in meanings if m in ("leaf", "group")]
+        tbl = p.value.pairs()
+        if bad:
+            rec("SEP-THREAD", "rollout: leaf-or-group decision", "violated", bad[0][4:])
+            continue
+        if not dec:
+            rec("SEP-THREAD", "rollout: leaf-or-group decision", "undecided",
+                "no recognised test of whether the key contains the separator on a returning path")
+            continue
+        rec("SEP-THREAD", "rollout: leaf-or-group decision", "holds")
+        kind = dec[-1]
+        if len(tbl) != 1:
+            rec("LEAF-VALUE", f"rollout: {form}, one entry in", "violated", f"{len(tbl)} entries come out of one ({p.value.key()[:60]})")
+            continue
+        k, v = tbl[0]
+        if kind == "leaf":
+            pay = _opt_payload(k)
+            name = pay if pay is not None else k
+            c = f"rollout: leaf store ({form})"
+            if (pay is not None) != bool(is_opt):
+                rec("OPTIONAL-REATTACH", c, "violated",
+                    "an optional key comes out required" if is_opt else "a required key comes out optional")
+            elif name.key() in idi.head or name.key() == comp:
+                rec("OPTIONAL-REATTACH", c, "holds")
+            else:
+                rec("OPTIONAL-REATTACH", c, "undecided", f"stored under {name.key()[:60]}: not a recognised spelling of the key")
+            if v.key() == Vv or (isinstance(v, Term) and v.op == "call" and str(v.args[0]).endswith("rollout")
+                                 and len(v.args) > 1 and v.args[1].key() == Vv):
+                rec("LEAF-VALUE", f"rollout: leaf value ({form})", "holds")
+            else:
+                rec("LEAF-VALUE", f"rollout: leaf value ({form})", "violated", f"the leaf value is stored as {v.key()[:60]}, not as received")
+            continue
+        # group
+        c = f"rollout: group store ({form})"
+        if _opt_payload(k) is not None:
+            rec("OPTIONAL-REATTACH", c, "violated", "the optional marker is attached to the HEAD (the group) instead of the tail")
+            continue
+        if k.key() not in idi.head:
+            rec("SEP-THREAD", f"rollout: head ({form})", "undecided" if k.key() != comp else "violated",
+                f"the group is stored under {k.key()[:60]}" + (": the whole key, not its head" if k.key() == comp else ": not a recognised head"))
         else:
-            run.undecided("OPTIONAL-REATTACH", c, loc, f"key expression {ast.unparse(key)[:60]} not recognised")
-        run.holds("LEAF-VALUE", c, loc, f"stores `{valname}` as received", nontrivial=False)
-    if len(stores) < 2:
-        run.violated("OPTIONAL-REATTACH", "rollout: store sites", site,
-                     f"only {len(stores)} store of the received value found (leaf and tail expected): values of one kind are dropped or rewritten",
-                     witness="rollout({'a.b': 1, 'c': 2})")
+            rec("SEP-THREAD", f"rollout: head ({form})", "holds")
+        grp, _, recursed = _group_of(v)
+        if grp is None or len(grp.pairs()) != 1:
+            rec("RECURSE", f"rollout: group ({form})", "violated" if not isinstance(v, Term) else "undecided",
+                f"the value stored for the head is {v.key()[:60]}, not a group table holding the tail")
+            continue
+        k2, v2 = grp.pairs()[0]
+        pay = _opt_payload(k2)
+        name = pay if pay is not None else k2
+        if (pay is not None) != bool(is_opt):
+            rec("OPTIONAL-REATTACH", c, "violated",
+                "the optional marker is lost on the tail" if is_opt else "a required tail comes out optional")
+        else:
+            rec("OPTIONAL-REATTACH", c, "holds")
+        nk = name.key()
+        if nk in idi.tail:
+            rec("SEP-THREAD", f"rollout: tail ({form})", "holds")
+        elif nk in idi.tail_wrong:
+            rec("SEP-THREAD", f"rollout: tail ({form})", "violated", idi.tail_wrong[nk])
+        elif "join" in nk and SEP not in nk.split("join")[0][-30:] and "mcall(" in nk:
+            rec("SEP-THREAD", f"rollout: tail ({form})", "violated", f"the tail {nk[:60]} is not joined with the separator parameter")
+        else:
+            rec("SEP-THREAD", f"rollout: tail ({form})", "undecided", f"tail {nk[:70]} is not a recognised spelling of the rest of the key")
+        if v2.key() != Vv:
+            rec("LEAF-VALUE", f"rollout: grouped value ({form})", "violated", f"the value is stored as {v2.key()[:60]}, not as received")
+        else:
+            rec("LEAF-VALUE", f"rollout: grouped value ({form})", "holds")
+        if recursed:
+            rec("RECURSE", f"rollout: group ({form})", "holds")
+        else:
+            # legitimate only if the path excludes a further separator in the tail and a dict payload
+            excl = any((isinstance(t, Term) and t.op == "in" and t.args[0].key() == SEP and t.args[1].key() == nk and b is False)
+                       for _, t, b in p.facts)
+            two = any(f"len(mcall({comp}, split, {SEP}))" in kk and isinstance(t, Term) and t.op == "eq"
+                      and _eval_int(t, f"len(mcall({comp}, split, {SEP}))", 2) == b and _eval_int(t, f"len(mcall({comp}, split, {SEP}))", 3) != b
+                      for kk, t, b in p.facts)
+            if excl or two:
+                rec("RECURSE", f"rollout: group ({form})", "holds")
+            else:
+                rec("RECURSE", f"rollout: group ({form})", "violated",
+                    "the group is stored without being rolled out although its tail may still contain the separator"
+                    + (" (the tail is wrapped in optional, so a test on str keys does not see it)" if is_opt else ""))
+
+    # ---------------------------------------------------------------- GROUP-GUARD (two entries, same head)
+    _group_guard(run, prog, model, f, rec)
+
+    # ---------------------------------------------------------------- report
+    for (rule, construct), vs in sorted(verdicts.items()):
+        bad = sorted({d for s_, d in vs if s_ == "violated"})
+        und = sorted({d for s_, d in vs if s_ == "undecided"})
+        if bad:
+            run.violated(rule, construct, site, "; ".join(bad)[:300], witness=_WITNESS.get(rule, ""))
+        elif und:
+            run.undecided(rule, construct, site, und[0])
+        else:
+            run.holds(rule, construct, site, f"on {len(vs)} paths", nontrivial=True)
+    for rule, c in (("SEP-THREAD", "rollout: recursive call"), ("RECURSE", "rollout: group (plain key)"),
+                    ("OPTIONAL-REATTACH", "rollout: group store (optional key)"), ("ELLIPSIS-PASS", "rollout: `...` entry")):
+        if (rule, c) not in verdicts:
+            run.undecided(rule, c, site, "no path of the abstract evaluation reaches this case")
+    run.floor("SEP-THREAD", 2)
     run.floor("OPTIONAL-REATTACH", 2)
 
-    # ---------------------------------------------------------------- GROUP-GUARD
-    creations = [n for n in ast.walk(loop) if isinstance(n, ast.Assign) and isinstance(n.targets[0], ast.Subscript)
-                 and isinstance(n.value, (ast.Dict,)) and not n.value.keys]
-    creations += [n for n in ast.walk(loop) if isinstance(n, ast.Assign) and isinstance(n.targets[0], ast.Subscript)
-                  and isinstance(n.value, ast.Call) and isinstance(n.value.func, ast.Name) and n.value.func.id == "dict" and not n.value.args]
-    uses_setdefault = any(isinstance(n, ast.Call) and isinstance(n.func, ast.Attribute) and n.func.attr == "setdefault" for n in ast.walk(loop))
-    if not creations and uses_setdefault:
-        run.holds("GROUP-GUARD", "rollout: group creation", site, "groups created with setdefault", nontrivial=True)
-    for i, cr in enumerate(creations):
-        c = f"rollout: group creation #{i + 1}"
-        loc = f"{f.module.path}:{cr.lineno}"
-        up = par.get(cr)
-        guarded = False
-        tgt = cr.targets[0]
-        while up is not None and up is not loop:
-            if isinstance(up, ast.If) and cr in up.body:
-                for cmp_ in ast.walk(up.test):
-                    if isinstance(cmp_, ast.Compare) and isinstance(cmp_.ops[0], ast.NotIn) \
-                            and ast.unparse(cmp_.comparators[0]) == ast.unparse(tgt.value) \
-                            and ast.unparse(cmp_.left) == ast.unparse(tgt.slice):  # type: ignore
-                        guarded = True
-            up = par.get(up)
-        if guarded:
-            run.holds("GROUP-GUARD", c, loc, "created only when the head is not yet present", nontrivial=True)
-        else:
-            run.violated("GROUP-GUARD", c, loc, "the per-head dict is (re)created unconditionally: earlier siblings of the same head are dropped",
-                         witness="rollout({'a.b': 1, 'a.c': 2}) yields {'a': {'c': 2}}")
-    run.floor("GROUP-GUARD", 1)
 
-    # ---------------------------------------------------------------- RECURSE + ellipsis pass-through
-    rec_ok = False
-    for n in ast.walk(fn):
-        if isinstance(n, ast.IfExp) and isinstance(n.body, ast.Call) and isinstance(n.body.func, ast.Name) and n.body.func.id == fn.name:
-            t = n.test
-            if isinstance(t, ast.Call) and isinstance(t.func, ast.Name) and t.func.id == "isinstance" and "dict" in names(t):
-                if isinstance(n.orelse, ast.Name) and n.body.args and isinstance(n.body.args[0], ast.Name) and n.body.args[0].id == n.orelse.id:
-                    rec_ok = True
-        if isinstance(n, ast.If) and isinstance(n.test, ast.Call) and isinstance(n.test.func, ast.Name) and n.test.func.id == "isinstance" \
-                and "dict" in names(n.test) and any(isinstance(c, ast.Call) and isinstance(c.func, ast.Name) and c.func.id == fn.name for c in ast.walk(n)):
-            rec_ok = True
-    any_rec = any(isinstance(n, ast.Call) and isinstance(n.func, ast.Name) and n.func.id == fn.name for n in ast.walk(fn))
-    if rec_ok:
-        run.holds("RECURSE", "rollout: dict-valued groups", site, "every dict-valued entry is rolled out recursively, others kept as is", nontrivial=True)
-    elif not any_rec:
-        run.violated("RECURSE", "rollout: dict-valued groups", site, "grouped tails are never rolled out recursively",
-                     witness="rollout({'a.b.c': 1}) yields {'a': {'b.c': 1}}")
-    else:
-        run.undecided("RECURSE", "rollout: dict-valued groups", site,
-                      "recursion is guarded by a condition other than isinstance(v, dict): whether every group is still rolled out cannot be decided")
-    ell_ok = False
-    for n in ast.walk(loop):
-        if isinstance(n, ast.If) and "is_ellipsis" in names(n.test):
-            for s in n.body:
-                if isinstance(s, ast.Assign) and isinstance(s.targets[0], ast.Subscript) and isinstance(s.value, ast.Name) and s.value.id == valname \
-                        and isinstance(s.targets[0].slice, ast.Name) and tnames and s.targets[0].slice.id == tnames[0]:
-                    ell_ok = True
-    if ell_ok:
-        run.holds("ELLIPSIS-PASS", "rollout: `...: ...` entry", site, "stored unchanged under its own key", nontrivial=False)
-    else:
-        run.violated("ELLIPSIS-PASS", "rollout: `...: ...` entry", site, "the relaxed marker entry is not passed through",
-                     witness="rollout({'a': 1, ...: ...}) loses or mangles the `...: ...` entry")
+_WITNESS = {
+    "SEP-THREAD": "rollout({'a/b/c': 1}, separator='/') / rollout({'a::b': 1}, separator='::') / rollout({'a.': 1})",
+    "OPTIONAL-REATTACH": "rollout({optional('a.b'): 1}) != {'a': {optional('b'): 1}}",
+    "RECURSE": "rollout({optional('a.b.c'): 0}) != {'a': {'b': {optional('c'): 0}}}",
+    "LEAF-VALUE": "rollout({'a.b': v})['a']['b'] is not v",
+    "ELLIPSIS-PASS": "rollout({...: ..., 'a.b': 1}) loses the `...: ...` entry",
+    "GROUP-GUARD": "rollout({'a.b': 1, 'x': 0, 'a.c': 2}) != {'a': {'b': 1, 'c': 2}, 'x': 0}",
+}
+
+
+def _cut_term(x: Any, rec: Any) -> None:
+    """str-cutting calls on the key must take the separator parameter."""
+    if isinstance(x, Term) and x.op == "mcall" and len(x.args) >= 2 and x.args[1] in (
+            "split", "rsplit", "partition", "rpartition", "find", "rfind", "index", "rindex") \
+            and isinstance(x.args[0], V) and "@keys" in x.args[0].key():
+        arg = x.args[2] if len(x.args) > 2 else None
+        c = f"rollout: {x.args[1]}() of the key"
+        if x.args[1] in ("rpartition", "rfind", "rindex") or (x.args[1] == "rsplit" and len(x.args) > 3):
+            rec("SEP-THREAD", c, "violated", f"{x.args[1]}() cuts at the LAST separator: the head must end at the first one")
+        elif isinstance(arg, V) and arg.key() == SEP:
+            rec("SEP-THREAD", c, "holds")
+        elif isinstance(arg, Const) or arg is None:
+            rec("SEP-THREAD", c, "violated", f"the key is cut with {arg.key() if isinstance(arg, V) else 'whitespace'} instead of the separator parameter")
+        else:
+            rec("SEP-THREAD", c, "undecided", f"the key is cut with {arg.key()[:40]}")
+
+
+def _group_guard(run: Run, prog: Program, model: Model, f: FuncInfo, rec: Any) -> None:
+    paths = _paths(prog, model, f, 2, split_on_store=True)
+    run.analysed["paths_two_entries"] = len(paths)
+    K0, K1, V0, V1 = "key0@keys", "key1@keys", "val0@keys", "val1@keys"
+    seen = 0
+    for p in paths:
+        if p.outcome != "return" or not isinstance(p.value, DictV):
+            continue
+        if not any(K1 in k for k, _, _ in p.facts):
+            continue
+        # second head unified with the first head
+        unified = [e for e in p.events if e.kind == "cond" and e.data.get("unified") is not None and e.data.get("value")
+                   and K1 in e.data["term"].args[0].key() and K0 in e.data["unified"].key()]
+        if not unified:
+            continue
+        # the property's domain: both keys contain the separator (a key that is both a leaf and a group is excluded)
+        both = True
+        for kk in (K0, K1):
+            opt = next((b for k_, _, b in p.facts if k_ == f"isinstance({kk}, optional)"), None)
+            if opt is None:
+                both = False
+                break
+            idi = Idioms(f"attr({kk}, key)" if opt else kk)
+            ms = [idi.decision(t, b) for _, t, b in p.facts]
+            if "group" not in ms or "leaf" in ms:
+                both = False
+        if not both:
+            continue
+        # only the heads may coincide: equal tails under equal heads would be one and the same flat key
+        heads = {kk: Idioms(f"attr({kk}, key)").head | Idioms(kk).head for kk in (K0, K1)}
+        allu = [e for e in p.events if e.kind == "cond" and e.data.get("unified") is not None and e.data.get("value")]
+        if any(not (e.data["term"].args[0].key() in heads[K1] and e.data["unified"].key() in heads[K0]) for e in allu):
+            continue
+        # both values must be reachable from the result
+        vals = {x.key() for x in _walk(p.value)}
+        seen += 1
+        if V0 in vals and V1 in vals:
+            tops = p.value.pairs()
+            if len(tops) == 1:
+                rec("GROUP-GUARD", "rollout: two keys with one head", "holds")
+            else:
+                rec("GROUP-GUARD", "rollout: two keys with one head", "violated",
+                    f"keys with the same head end up in {len(tops)} top-level entries")
+        else:
+            lost = V0 if V0 not in vals else V1
+            rec("GROUP-GUARD", "rollout: two keys with one head", "violated",
+                f"the entry of {'the first' if lost == V0 else 'the second'} key is lost when a later key has the same head "
+                "(the group is re-created instead of extended)")
+    if not seen:
+        rec("GROUP-GUARD", "rollout: two keys with one head", "undecided",
+            "no path on which the head of the second key is found among the groups created so far")
 
 
 U = "d42/utils/_rollout.py"
